@@ -150,6 +150,16 @@ func leafOK(l desc, q query) bool {
 // linkOK: child is correctly signed by parent and parent may sign, and parent is acceptable at
 // position pos (pos = number of certificates below it in the chain).
 func linkOK(child, parent desc, pos int, q query) bool {
+	return linkOKN(child, parent, pos, q, false)
+}
+
+// linkOKN with nested = true also demands that a CA which carries an extended-key-usage extension
+// allows the requested usage (the reading of Go's verifier and of this library; the statement speaks
+// of the leaf only). Verdicts on which the two readings differ are not judged.
+func linkOKN(child, parent desc, pos int, q query, nested bool) bool {
+	if nested && !ekuOK(parent, q.usages) {
+		return false
+	}
 	if child.issuer != parent.subject || child.signKey != parent.subjKey {
 		return false
 	}
@@ -164,6 +174,21 @@ func linkOK(child, parent desc, pos int, q query) bool {
 
 // refChains returns every acceptable chain (as index lists) by brute force over simple paths.
 func refAccept(leaf *cert, roots, inters []*cert, q query) bool {
+	return refAcceptN(leaf, roots, inters, q, false)
+}
+
+func refAcceptN(leaf *cert, roots, inters []*cert, q query, nested bool) bool {
+	if nested && len(q.usages) > 1 {
+		// nesting is per usage: ONE of the requested usages has to survive the whole chain
+		for _, u1 := range q.usages {
+			q1 := q
+			q1.usages = []gx509.ExtKeyUsage{u1}
+			if refAcceptN(leaf, roots, inters, q1, true) {
+				return true
+			}
+		}
+		return false
+	}
 	if !leafOK(leaf.d, q) {
 		return false
 	}
@@ -178,7 +203,7 @@ func refAccept(leaf *cert, roots, inters []*cert, q query) bool {
 			if used[r.d.id] {
 				continue
 			}
-			if linkOK(cur.d, r.d, depth, q) {
+			if linkOKN(cur.d, r.d, depth, q, nested) {
 				return true
 			}
 		}
@@ -186,7 +211,7 @@ func refAccept(leaf *cert, roots, inters []*cert, q query) bool {
 			if used[in.d.id] {
 				continue
 			}
-			if linkOK(cur.d, in.d, depth, q) {
+			if linkOKN(cur.d, in.d, depth, q, nested) {
 				used[in.d.id] = true
 				ok := dfs(in, used, depth+1)
 				delete(used, in.d.id)
